@@ -138,6 +138,7 @@ def wfb (env : Env) : Ty → Bool
   | .vmStack _ => false                  -- decode returns the reversed list: see `vmstack_convention`
   | .dictE k t => (keyWidth k).isSome && wfb env k && wfb env t
   | .dict k t => (keyWidth k).isSome && wfb env k && wfb env t
+  | .highload => true
   | .chain _ => false                    -- takes the next reference if there is one: outside the greedy/non-greedy split
   | .encErr _ => true
   | .opaque _ => false
@@ -325,6 +326,9 @@ def inDom (env : Env) : Nat → Ty → Val → Bool
         (fun x => encode env fuel k x Builder.empty) (fun x => encode env fuel t x Builder.empty) v
     | .dict k t => dictDom (keyWidth k) (fun x => inDom env fuel k x) (fun x => inDom env fuel t x)
         (fun x => encode env fuel k x Builder.empty) (fun x => encode env fuel t x Builder.empty) v && !v.isNil
+    | .highload => Prim.valLen v ≤ 254 && Prim.payloadDom v && (match hlToDict v with
+      | some d => inDom env fuel (.dictE (.uint 16) (.prim .any)) d
+      | none => false)
     | .chain e => (match v with
       | .cons x rest => inDom env fuel e x && (rest.isNil || inDom env fuel (.chain e) rest)
       | _ => false)
